@@ -9,6 +9,8 @@ oracle-free laws are checked). Every accessor is then compared with a recomputat
 """
 from __future__ import annotations
 
+from vf.bounded import _meta_guard as _g  # noqa: E402
+
 import hashlib
 import itertools
 import random
@@ -463,7 +465,7 @@ def worker(args):
     with warnings.catch_warnings():
         warnings.simplefilter("ignore")
         for case in cases:
-            check_case(acc, case)
+            _g.guard(acc.fail, check_case, acc, case)
     return acc.n, acc.keys, acc.samples, acc.fails, acc.stats
 
 
@@ -484,6 +486,7 @@ def _collect(b, results, total, stats):
 
 
 def run_bounded(ctx):
+    _g.begin("C10", ctx)
     rng = random.Random(ctx.seed)
     total, stats = {}, {}
     pool = term_pool()
@@ -517,7 +520,7 @@ def run_bounded(ctx):
         bound="terms <= 2 of 23 (+ intercept); rows 8/12",
     ) as b:
         with ProcessPoolExecutor(16) as ex:
-            _collect(b, list(ex.map(worker, _chunks(ex_cases, 64))), total, stats)
+            _collect(b, _g.safe_map(worker, _chunks(ex_cases, 64)), total, stats)
 
     rnd_cases = []
     fixed = [
@@ -559,7 +562,7 @@ def run_bounded(ctx):
         bound="terms <= 6, interaction order <= 3",
     ) as b:
         with ProcessPoolExecutor(16) as ex:
-            _collect(b, list(ex.map(worker, _chunks(rnd_cases, 64))), total, stats)
+            _collect(b, _g.safe_map(worker, _chunks(rnd_cases, 64)), total, stats)
     ctx.notes.append(f"C10 bounded: generator statistics {dict(sorted(stats.items()))}")
     ctx.assume(
         "C10-truth: a term's columns are those that appear when the term is appended to the preceding terms (prefix "
